@@ -296,7 +296,7 @@ def check_sim_vs_swap(ctx, model, crate, nargs):
     # pools: pending fees subtracted in both, offer subtracted only in swap
     for v, nm in ((sw, "swap"), (si, "simulation")):
         subs = []
-        for q in [v.path] + [x for x in model.fnsrc if x.startswith(v.path + "::{closure")]:
+        for q in [v.path] + model.closures_of(v.path):
             cv = model.view(q)
             for xb, xt in cv.calls_to(r"Uint128::checked_sub$"):
                 a1 = cv.origins_of_operand(xt["args"][1], at=cv.at_term(xb))
